@@ -344,7 +344,7 @@ async def _main(case, obs, loop, net):
                  for tag, p in procs.items()}
 
 
-def run(case):
+def _run(case):
     if not _SHIMMED[0]:
         setup()
     obs = Obs()
@@ -396,3 +396,10 @@ def committed_view(obs):
             if t:
                 ru.setdefault(t[1], []).append((k, off, b.get("transactional")))
     return rc, ru
+
+
+def run(case):
+    """Execute the case (case["debug_log"]: with the library's DEBUG logging switched on); returns Obs."""
+    from vlib.core import debug_logging
+    with debug_logging(case.get("debug_log")):
+        return _run(case)
